@@ -164,6 +164,10 @@ IMPLS: Dict[str, Callable[..., Any]] = {
     "pickmax": lambda a, b: a if _k(a) >= _k(b) else b,
     "first": lambda a, b: a,
     "second": lambda a, b: b,
+    # reductions whose result is None / falsy now and then: a running total like any other
+    "none_if_2": lambda a, b: None if _k(b) == 2 else b,
+    "retnone": lambda a, b: None,
+    "zero_if_1": lambda a, b: 0 if _k(b) == 1 else b,
     # keys
     "half": lambda x: _k(x) // 2,
     "neg": lambda x: -_k(x),
